@@ -49,13 +49,44 @@ def _is_len_of(e: ast.AST, name: str) -> bool:
         isinstance(e.args[0], ast.Name) and e.args[0].id == name
 
 
-def classify_pairs(sc: IndexScope, comp: ast.ListComp, rule_enum: str, obs: List[Ob]) -> Optional[Tuple[str, str]]:
+def classify_pairs(sc: IndexScope, comp: ast.ListComp, rule_enum: str, obs: List[Ob], order_sensitive=None,
+                   rule_kind: str = 'R14.2') -> Optional[Tuple[str, str]]:
     """Kinds of the two tuple components of a pair comprehension + completeness obligations (R06.1)."""
     f = sc.fi
     fn = _fn(f)
     if len(comp.generators) != 2 or not isinstance(comp.elt, ast.Tuple) or len(comp.elt.elts) != 2:
         return None
     g1, g2 = comp.generators
+    # value-filtered spelling: [(a, b) for a in idx for b in idx if a < b]
+    if isinstance(g1.target, ast.Name) and isinstance(g2.target, ast.Name) and isinstance(g1.iter, ast.Name) and \
+            isinstance(g2.iter, ast.Name) and g1.iter.id == sc.idx and g2.iter.id == sc.idx and not g1.ifs and len(g2.ifs) == 1 \
+            and isinstance(g2.ifs[0], ast.Compare) and len(g2.ifs[0].ops) == 1:
+        a, b = g1.target.id, g2.target.id
+        c = g2.ifs[0]
+        names = {getattr(c.left, 'id', None), getattr(c.comparators[0], 'id', None)}
+        elts = [getattr(e, 'id', None) for e in comp.elt.elts]
+        if names == {a, b} and set(elts) == {a, b}:
+            op = c.ops[0]
+            t = f"{f.name}: the pair list contains every unordered pair of selected trains exactly once"
+            if isinstance(op, (ast.Lt, ast.Gt)):
+                obs.append(ok(rule_enum, t, f.loc(comp), construct=f"{fn}::pairs::by-value",
+                              detail='filtered by value (complete for distinct indices)'))
+                t2 = (f"{f.name}: the first component of every pair is the train that comes first in `{sc.idx}` (the order of the "
+                      f"selection, as in the selected sub-list)")
+                sens = order_sensitive(f) if order_sensitive else None
+                if sens:
+                    obs.append(violation(rule_kind, t2, f.loc(comp), key=f"{fn}::pairs::oriented-by-value",
+                                         detail=f"`{ast.unparse(comp)}` orients each pair by train number, not by position in `{sc.idx}`; "
+                                                f"this function feeds an order-sensitive (antisymmetric) measure, so a non-ascending "
+                                                f"`{sc.idx}` flips signs"))
+                elif sens is False:
+                    obs.append(ok(rule_kind, t2 + ' - or the measure is symmetric in the pair', f.loc(comp), construct=f"{fn}::pairs::orientation"))
+                else:
+                    obs.append(inconclusive(rule_kind, t2, f.loc(comp), 'order sensitivity of the consumer unknown', construct=f"{fn}::pairs::orientation"))
+                return TID, TID
+            obs.append(violation(rule_enum, t, f.loc(comp), key=f"{fn}::pairs::filter::{ast.unparse(c)}",
+                                 detail=f"filter `{ast.unparse(c)}` does not select each unordered pair once"))
+            return TID, TID
     if not (isinstance(g1.target, ast.Name) and isinstance(g2.target, ast.Name)) or g1.ifs or g2.ifs:
         obs.append(inconclusive(rule_enum, f"{f.name}: pair comprehension has two plain generators", f.loc(comp), construct=fn))
         return None
@@ -143,7 +174,7 @@ def r14_2_index_kinds(ctx, rule: str = 'R14.2', rule_enum: str = 'R06.1', rule_s
         for n in ast.walk(f.node):
             if isinstance(n, ast.Assign) and len(n.targets) == 1 and isinstance(n.targets[0], ast.Name) and \
                     isinstance(n.value, ast.ListComp) and isinstance(n.value.elt, ast.Tuple) and len(n.value.generators) == 2:
-                ks = classify_pairs(sc, n.value, rule_enum, obs)
+                ks = classify_pairs(sc, n.value, rule_enum, obs, lambda ff: _order_sensitive(ctx, wm, ff), rule)
                 if ks:
                     sc.pairs[n.targets[0].id] = (ks[0], ks[1], n)
         if not sc.pairs:
@@ -258,6 +289,42 @@ def r14_2_index_kinds(ctx, rule: str = 'R14.2', rule_enum: str = 'R06.1', rule_s
         else:
             obs.append(violation(rule, t, f.loc(), key=f"{fn}::indices-unvalidated"))
     return obs
+
+
+def _order_sensitive(ctx, wm: WrapperModel, f: FuncInfo) -> Optional[bool]:
+    """does `f` feed its pairs to an antisymmetric measure (order / directionality kernels)?"""
+    from .rules_wrappers import _reachable_sites
+    from .rules_symmetry import infer_mode
+    from .kernels import discover_families
+    fams, _sites = ctx.get('families', lambda c: discover_families(c.repo))
+    reached = _reachable_sites(wm, f)
+    # plus single-pass sites reached directly
+    singles = set()
+    seen = set()
+
+    def walk(g, depth=0):
+        if g.qual in seen or depth > 5:
+            return
+        seen.add(g.qual)
+        for s in wm.site_by_func.get(g.qual, []):
+            singles.add(s.compiled_symbol)
+        for n in ast.walk(g.node):
+            if isinstance(n, ast.Call):
+                for t, _ in wm.callees(g, n):
+                    walk(t, depth + 1)
+    walk(f)
+    names = reached | singles
+    if not names:
+        return None
+    for fam in fams:
+        for k in (fam.pyx, fam.single):
+            if k is not None and k.name in names:
+                for node in ast.walk(k.node):
+                    if isinstance(node, ast.While):
+                        mode, negs, rk = infer_mode(k, node)
+                        if mode == 'anti' or rk == 'swap':
+                            return True
+    return False
 
 
 # ======================================================================================
